@@ -1194,7 +1194,7 @@ impl FloatValue {
     fn valid_syntax(text: &str) -> bool {
         if let Some((mantissa, exponent)) = text.split_once(['e', 'E']) {
             let exponent = exponent.strip_prefix(['+', '-']).unwrap_or(exponent);
-            if !exponent.bytes().all(|b| b.is_ascii_digit()) {
+            if exponent.is_empty() || !exponent.bytes().all(|b| b.is_ascii_digit()) {
                 return false;
             }
             if let Some((int, fract)) = mantissa.split_once('.') {
